@@ -169,3 +169,41 @@ func (s *syncPub) Publish(topic string, msgs ...*message.Message) error {
 	return s.p.Publish(topic, msgs...)
 }
 func (s *syncPub) Close() error { return nil }
+
+// HarnessC13SharedWrapper: one poison-wrapped handler function serves two handlers (registered twice, or
+// used for two topics): two messages with router-built contexts of different handlers go through the same
+// wrapped function one after the other; each poisoned message names its own origin.
+func HarnessC13SharedWrapper() {
+	pub := &recPublisher{}
+	mw, err := PoisonQueue(pub, "poison")
+	vrt.Assert(err == nil, "middleware")
+	fails := [2]bool{vrt.Bool("first.fails"), vrt.Bool("second.fails")}
+	var msgs [2]*message.Message
+	h := mw(func(m *message.Message) ([]*message.Message, error) {
+		if (m == msgs[0] && fails[0]) || (m == msgs[1] && fails[1]) {
+			return nil, errScripted
+		}
+		return nil, nil
+	})
+	names := [2][3]string{
+		{vrt.Str("a.handler"), vrt.Str("a.subscriber"), vrt.Str("a.topic")},
+		{vrt.Str("b.handler"), vrt.Str("b.subscriber"), vrt.Str("b.topic")},
+	}
+	poisoned := 0
+	for i := 0; i < 2; i++ {
+		msgs[i] = message.NewMessage("m"+strconv.Itoa(i), nil)
+		message.ZZAddHandlerContext(msgs[i], names[i][0], names[i][1], names[i][2], "", "")
+		_, herr := h(msgs[i])
+		vrt.Assert(herr == nil, "a poisoned message is reported as success, a good one passes")
+		if !fails[i] {
+			vrt.Assert(len(msgs[i].Metadata) == 0, "the message is untouched when nothing is poisoned")
+			continue
+		}
+		poisoned++
+		vrt.Assert(len(pub.calls) == poisoned && len(pub.calls[poisoned-1].msgs) == 1 && pub.calls[poisoned-1].msgs[0] == msgs[i], "the failed message is published to the poison topic exactly once")
+		vrt.Assert(msgs[i].Metadata[PoisonedHandlerKey] == names[i][0], "metadata names the handler the message failed in")
+		vrt.Assert(msgs[i].Metadata[PoisonedSubscriberKey] == names[i][1], "metadata names that handler's subscriber")
+		vrt.Assert(msgs[i].Metadata[PoisonedTopicKey] == names[i][2], "metadata names the topic the message came from")
+	}
+	vrt.Observe("poisoned", poisoned)
+}
